@@ -373,8 +373,40 @@ pub fn coords(mut index: usize, e: usize, ndim: usize) -> Vec<usize> {
     }
     v
 }
-/// squared distance; the radius test is done as d2 <= r*r in f64 (radii in the
-/// alphabets are never within rounding distance of sqrt(integer))
+/// Indices whose distance from the centre differs from the radius by less than one unit in the last
+/// place of the (single-precision) radius without being equal to it: whether such a point lies "within
+/// the radius" depends on how the single-precision distance is rounded (pushr's own tests call
+/// find_neighbors with f32::sqrt(2.0), which is *below* the real square root of two, and expect the
+/// diagonal neighbours), so membership of these points is left open; every other point is decided exactly.
+pub fn neighbors_ambiguous(ntotal: usize, ndim: usize, index: usize, radius: f32) -> Vec<i32> {
+    if !(radius >= 0.0) || !radius.is_finite() || ndim < 1 || ntotal < 1 || index >= ntotal {
+        return vec![];
+    }
+    let e = edge_len(ntotal, ndim);
+    let c = coords(index, e, ndim);
+    let r = radius as f64;
+    let ulp = (f32::from_bits(radius.to_bits() + 1) - radius) as f64;
+    let mut out = vec![];
+    for i in 0..ntotal {
+        let ci = coords(i, e, ndim);
+        let d2: u64 = c.iter().zip(&ci).map(|(a, b)| {
+            let d = *a as i64 - *b as i64;
+            (d * d) as u64
+        }).sum();
+        let d = (d2 as f64).sqrt();
+        let exact = {
+            let root = d.round();
+            root * root == d2 as f64 && root == r
+        };
+        if !exact && (d - r).abs() < ulp {
+            out.push(i as i32);
+        }
+    }
+    out
+}
+
+/// squared distance; the radius test is done as d2 <= r*r in f64 (points within rounding distance of the
+/// radius: see `neighbors_ambiguous`)
 pub fn neighbors_ref(ntotal: usize, ndim: usize, index: usize, radius: f32) -> Option<Vec<i32>> {
     if !(radius >= 0.0) || ndim < 1 || ntotal < 1 || index >= ntotal {
         return None;
@@ -456,6 +488,20 @@ pub fn spec(name: &str, m0: &M) -> Exp {
         None => return Exp::Unknown,
     };
     if ft.random && name != "EXEC.CMD" {
+        // the documented parameter guards of the vector generators ("... this acts as a NOOP"): C10 rule
+        if !missing(&ft, m0) {
+            let guard_fails = match name {
+                "BOOLVECTOR.RAND" => m0.i[0] < 0 || !(m0.f[0] >= 0.0 && m0.f[0] <= 1.0),
+                // size on top, then max, then min
+                "INTVECTOR.RAND" => m0.i[0] < 0 || m0.i[1] < m0.i[2],
+                // mean on top, standard deviation second
+                "FLOATVECTOR.RAND" => m0.i[0] < 0 || m0.f[1] < 0.0,
+                _ => false,
+            };
+            if guard_fails {
+                return Exp::Unfired;
+            }
+        }
         return Exp::Any;
     }
     if name == "EXEC.CMD" {
@@ -1894,6 +1940,10 @@ pub fn spec(name: &str, m0: &M) -> Exp {
             let index = clamp(index, size as usize);
             let dims = std::cmp::max(std::cmp::min(size, dims), 0) as usize;
             let radius = if radius.is_nan() { 0.0 } else { radius.max(0.0) };
+            if !neighbors_ambiguous(size as usize, dims, index, radius).is_empty() {
+                // a point within single-precision rounding distance of the radius: membership left open
+                return Exp::Any;
+            }
             let nb = match neighbors_ref(size as usize, dims, index, radius) {
                 Some(v) => v,
                 None => return Exp::Unfired,
